@@ -82,7 +82,8 @@ func NewTokenLimiter(rate, burst int, store *redis.Redis, key string) *TokenLimi
 		rescueLock:     sync.Mutex{},
 		redisAlive:     1,
 		monitorStarted: false,
-		rescueLimiter:  xrate.NewLimiter(xrate.Every(time.Second/time.Duration(rate)), burst),
+		// 每秒 rate 个令牌，与脚本一致；由 time.Second/rate 取整的间隔换算会偏快
+		rescueLimiter: xrate.NewLimiter(xrate.Limit(rate), burst),
 	}
 }
 
